@@ -1,6 +1,6 @@
 import GV.Lib.Line
 import GV.Model.Offsets
-import GV.Model.OffsetsTruth
+import GV.Model.OffsetsTruthA
 import GV.Model.OffsetsWit
 /-
   op (feed_impl): blk <era> <form description> <hex block> \t <implementation output>
@@ -55,7 +55,7 @@ def handle (line : String) : Out :=
         let model := s!"S={m} E={m} {cmp} X={x}"
         let spec :=
           if cmp = "cmp=nodec" then "*"
-          else match GV.Model.OffsetsTruth.truth era b with
+          else match GV.Model.OffsetsTruthA.truth era b.toArray with
             | none => "*"
             | some t => let s := fmtLocs (some t); s!"S={s} E={s} cmp=ok *"
         -- known-finding class `script-key`: the block carries a Plutus script in a witness
